@@ -70,6 +70,10 @@ func (l *Loaded) FindFunc(qual string) (*ssa.Function, error) {
 var stubRe = regexp.MustCompile(`(?m)^//verif:stub\s+(.+?)\s+=\s+(\S+)\s*$`)
 var initRe = regexp.MustCompile(`(?m)^//verif:init\s+(\S+)\s*$`)
 
+// //verif:zero <pkg.Var>: the harness states that the zero value is the model of this initialised package-level
+// variable (e.g. an analyzer object that is only used as a map key); recorded with the other directives.
+var zeroRe = regexp.MustCompile(`(?m)^//verif:zero\s+(\S+)\s*$`)
+
 // Directives extracts //verif:stub and //verif:init lines from a harness source.
 func Directives(src []byte, pkgPath string) (stubs map[string]string, inits []string) {
 	stubs = map[string]string{}
@@ -82,6 +86,9 @@ func Directives(src []byte, pkgPath string) (stubs map[string]string, inits []st
 	}
 	for _, m := range initRe.FindAllSubmatch(src, -1) {
 		inits = append(inits, string(m[1]))
+	}
+	for _, m := range zeroRe.FindAllSubmatch(src, -1) {
+		inits = append(inits, "zero:"+string(m[1]))
 	}
 	return
 }
